@@ -57,6 +57,71 @@ func c15GenRule(r *rng) string {
 	}
 }
 
+// c15LongRule is a hiding rule or an exception whose domain list has a few hundred
+// names, so that the LINE is longer than the 4096-byte read buffer of the list
+// scanner (lengths around 4096 and 8192 and in between / beyond).  A handful of
+// the names are domains the requests are aimed at (c15Domains / c15Wild, each at
+// most once), spread over the whole line: a line reader that cuts, drops or
+// re-splits the line changes the answer for some of them.
+func c15LongRule(r *rng) string {
+	sel := pick(r, c15Selectors)
+	marker := pick(r, []string{"##", "##", "#@#"})
+	target := pick(r, []int{4000, 4090, 4094, 4095, 4096, 4097, 4098, 4100, 4200, 5000, 6000, 8190, 8191, 8192, 8193, 8194, 8200, 9000, 12288, 12300})
+	target += r.n(5) - 2
+	budget := target - len(marker) - len(sel)
+	// filler names until the budget is used up
+	var ds []string
+	used := 0
+	for k := 0; ; k++ {
+		d := fmt.Sprintf("shop%03d-%s.com", k, pick(r, []string{"example", "ex", "store-example"}))
+		if r.chance(1, 9) {
+			d = "~" + d
+		}
+		if used+len(d)+1 > budget-40 {
+			break
+		}
+		ds = append(ds, d)
+		used += len(d) + 1
+	}
+	// the aimed names, at random positions (begin, middle, end all likely)
+	aimed := subset(r, append(append([]string{}, c15Domains...), c15Wild...), 8)
+	for len(aimed) < 3 {
+		aimed = append(aimed, pick(r, c15Domains))
+	}
+	seen := map[string]bool{}
+	for _, a := range aimed {
+		if seen[a] {
+			continue
+		}
+		seen[a] = true
+		if r.chance(1, 8) {
+			a = "~" + a
+		}
+		pos := r.n(len(ds) + 1)
+		switch r.n(5) {
+		case 0:
+			pos = r.n(3)
+		case 1:
+			pos = len(ds) - r.n(3)
+		}
+		if pos < 0 {
+			pos = 0
+		}
+		if used+len(a)+1 > budget {
+			continue
+		}
+		ds = append(ds[:pos], append([]string{a}, ds[pos:]...)...)
+		used += len(a) + 1
+	}
+	// pad the last filler so that the line has exactly the aimed length
+	list := strings.Join(ds, ",")
+	if pad := budget - len(list) - 1; pad > 4 {
+		list += "," + strings.Repeat("p", pad-4) + ".com"
+	}
+
+	return list + marker + sel
+}
+
 func c15Host(r *rng) string {
 	d := pick(r, c15Domains)
 	switch r.n(10) {
@@ -75,6 +140,30 @@ func c15Host(r *rng) string {
 	default:
 		return "deep.er.sub." + d
 	}
+}
+
+// c15ShortNote abbreviates the long domain lists of c15LongRule in a note.
+func c15ShortNote(s string) string {
+	if len(s) <= 3000 {
+		return s
+	}
+	fields := strings.Split(s, ",")
+	var out []string
+	skipped := 0
+	for _, f := range fields {
+		if (strings.HasPrefix(f, "shop") || strings.HasPrefix(f, "~shop")) && !strings.ContainsAny(f, "#¶‖ ") {
+			skipped++
+
+			continue
+		}
+		if skipped > 0 {
+			out = append(out, fmt.Sprintf("…%d filler names…", skipped))
+			skipped = 0
+		}
+		out = append(out, f)
+	}
+
+	return fmt.Sprintf("%s (line lengths abbreviated; total %d bytes)", strings.Join(out, ","), len(s))
 }
 
 func c15SelSet(ss ...[]string) string {
@@ -98,6 +187,9 @@ func c15Gen(r *rng, n int, w *bufio.Writer) {
 		var all []string
 		for j := 0; j < nLines; j++ {
 			t := c15GenRule(r)
+			if r.chance(1, 40) {
+				t = c15LongRule(r)
+			}
 			if len(all) > 0 && r.chance(1, 8) {
 				t = pick(r, all)
 			}
@@ -117,12 +209,15 @@ func c15Gen(r *rng, n int, w *bufio.Writer) {
 		}
 		engine := urlfilter.NewCosmeticEngine(s)
 		full := urlfilter.NewEngine(s)
-		scan := s.NewRuleStorageScanner()
+		// the rules of the scenario are the LINES parsed one by one (not what the list scanner hands out: the
+		// engine under test is built through the scanner, the model and the reference are not)
 		var items []string
-		for scan.Scan() {
-			f, _ := scan.Rule()
-			if c, ok := f.(*rules.CosmeticRule); ok {
-				items = append(items, wcosrule(c))
+		for j, b := range bodies {
+			for _, t := range b {
+				f, perr := rules.NewRule(strings.TrimSpace(t), j+1)
+				if c, ok := f.(*rules.CosmeticRule); ok && perr == nil && c != nil {
+					items = append(items, wcosrule(c))
+				}
 			}
 		}
 		rulesW := wlist(items...)
@@ -177,7 +272,7 @@ func c15Gen(r *rng, n int, w *bufio.Writer) {
 					return a
 				})
 				fmt.Fprintf(w, "c15.cosm %s %s %s %s %s %s = %s ## host=%q css=%v js=%v generic=%v lists: %s\n",
-					rulesW, wb(host), wbool(css), wbool(js), wbool(gen), wpsl(host), ans, host, css, js, gen, map[bool]string{true: "via Engine.GetCosmeticResult; ", false: ""}[viaEngine]+strings.Join(note, " ‖ "))
+					rulesW, wb(host), wbool(css), wbool(js), wbool(gen), wpsl(host), ans, host, css, js, gen, map[bool]string{true: "via Engine.GetCosmeticResult; ", false: ""}[viaEngine]+c15ShortNote(strings.Join(note, " ‖ ")))
 			}
 		}
 	}
